@@ -337,3 +337,644 @@ Proof.
   rewrite (lifetime_domain ts p e Hts) by (try exact HT; lia).
   rewrite HT. apply ns_max_ge.
 Qed.
+
+(* ------------------------------------------------------------------ one key through a history *)
+(* steps that (re)bind or terminate key k *)
+Definition touches (k : bytes) (o : pin_op) : bool :=
+  match o with PAdd k' _ _ | PRemove k' => beq k k' | PGet _ | PAdvance _ => false end.
+Definition adds (k : bytes) (o : pin_op) : bool :=
+  match o with PAdd k' _ _ => beq k k' | _ => false end.
+
+Definition nodup_tab (p : pins) : Prop := NoDup (map fst (p_tab p)).
+
+Lemma touches_adds k ops : existsb (touches k) ops = false -> existsb (adds k) ops = false.
+Proof.
+  induction ops as [|o r IH]; cbn [existsb]; intros H; [reflexivity|].
+  apply orb_false_iff in H. destruct H as [Ho Hr]. rewrite (IH Hr), orb_false_r.
+  destruct o; cbn [touches adds] in *; try reflexivity. exact Ho.
+Qed.
+
+Lemma step_nodup now p o : nodup_tab p -> nodup_tab (snd (fst (pins_step (now, p) o))).
+Proof.
+  unfold nodup_tab. intros HD. destruct o as [k b e|k|k|dt]; cbn [pins_step].
+  - cbn [fst snd]. unfold pins_add.
+    destruct (Z.ltb (p_next_clean p) now); cbn [p_tab].
+    + apply filter_keys_nodup. apply aset_keys_nodup. exact HD.
+    + apply aset_keys_nodup. exact HD.
+  - unfold pins_get. destruct (alookup k (p_tab p)) as [e|]; [|exact HD].
+    destruct (Z.ltb now (pin_expire e)); cbn [fst snd p_tab]; [exact HD|].
+    apply adel_keys_nodup. exact HD.
+  - cbn [fst snd pins_remove p_tab]. apply adel_keys_nodup. exact HD.
+  - exact HD.
+Qed.
+
+Lemma step_time_le now p o : now <= fst (fst (pins_step (now, p) o)).
+Proof.
+  destruct o as [k b e|k|k|dt]; cbn [pins_step fst]; try lia.
+  destruct (pins_get now k p). cbn [fst]. lia.
+Qed.
+
+Lemma exec_time_le ops : forall now p, now <= fst (pins_exec (now, p) ops).
+Proof.
+  induction ops as [|o r IH]; intros now p; cbn [pins_exec fold_left fst]; [lia|].
+  pose proof (step_time_le now p o) as H1.
+  destruct (fst (pins_step (now, p) o)) as [now1 p1]. cbn [fst] in H1.
+  specialize (IH now1 p1). unfold pins_exec in IH. lia.
+Qed.
+
+(* a step that does not touch k leaves k's entry alone, or drops it because it has expired *)
+Lemma step_untouched k now p o : nodup_tab p -> touches k o = false ->
+  let st1 := fst (pins_step (now, p) o) in
+  alookup k (p_tab (snd st1)) = alookup k (p_tab p) \/
+  (alookup k (p_tab (snd st1)) = None /\
+   exists ent, alookup k (p_tab p) = Some ent /\ pin_expire ent <= fst st1).
+Proof.
+  unfold nodup_tab. intros HD Ht. destruct o as [k1 b e|k1|k1|dt]; cbn [pins_step touches] in *.
+  - cbn [fst snd]. apply beq_neq in Ht. unfold pins_add.
+    destruct (Z.ltb (p_next_clean p) now); cbn [p_tab].
+    + rewrite alookup_clean by (apply aset_keys_nodup; exact HD).
+      rewrite alookup_aset_other by exact Ht.
+      destruct (alookup k (p_tab p)) as [ent|]; [|left; reflexivity].
+      destruct (Z.ltb_spec (pin_expire ent) now) as [Hx|Hx]; [|left; reflexivity].
+      right. split; [reflexivity|]. exists ent. split; [reflexivity|lia].
+    + left. apply alookup_aset_other. exact Ht.
+  - unfold pins_get. destruct (alookup k1 (p_tab p)) as [e1|] eqn:E1; [|left; reflexivity].
+    destruct (Z.ltb_spec now (pin_expire e1)) as [Hx|Hx]; cbn [fst snd p_tab]; [left; reflexivity|].
+    destruct (beq_spec k k1) as [->|NE].
+    + right. split; [apply alookup_adel_same|]. exists e1. split; [exact E1|exact Hx].
+    + left. apply alookup_adel_other. exact NE.
+  - cbn [fst snd pins_remove p_tab]. left. apply alookup_adel_other. apply beq_neq. exact Ht.
+  - left. reflexivity.
+Qed.
+
+(* an absent key stays absent until it is added *)
+Lemma step_none k now p o : adds k o = false -> alookup k (p_tab p) = None ->
+  alookup k (p_tab (snd (fst (pins_step (now, p) o)))) = None.
+Proof.
+  intros Ha HN. destruct o as [k1 b e|k1|k1|dt]; cbn [pins_step adds] in *.
+  - cbn [fst snd]. apply beq_neq in Ha. unfold pins_add.
+    destruct (Z.ltb (p_next_clean p) now); cbn [p_tab].
+    + apply alookup_clean_none. rewrite alookup_aset_other by exact Ha. exact HN.
+    + rewrite alookup_aset_other by exact Ha. exact HN.
+  - unfold pins_get. destruct (alookup k1 (p_tab p)) as [e1|]; [|exact HN].
+    destruct (Z.ltb now (pin_expire e1)); cbn [fst snd p_tab]; [exact HN|].
+    destruct (beq_spec k k1) as [->|NE]; [apply alookup_adel_same|].
+    rewrite alookup_adel_other by exact NE. exact HN.
+  - cbn [fst snd pins_remove p_tab].
+    destruct (beq_spec k k1) as [->|NE]; [apply alookup_adel_same|].
+    rewrite alookup_adel_other by exact NE. exact HN.
+  - exact HN.
+Qed.
+
+Lemma exec_none k ops : forall now p,
+  existsb (adds k) ops = false -> alookup k (p_tab p) = None ->
+  alookup k (p_tab (snd (pins_exec (now, p) ops))) = None.
+Proof.
+  induction ops as [|o r IH]; intros now p Ha HN; cbn [pins_exec fold_left]; [exact HN|].
+  cbn [existsb] in Ha. apply orb_false_iff in Ha. destruct Ha as [Ho Hr].
+  pose proof (step_none k now p o Ho HN) as H1.
+  destruct (fst (pins_step (now, p) o)) as [now1 p1]. cbn [snd] in H1.
+  apply IH; assumption.
+Qed.
+
+Lemma exec_untouched k ent ops : forall now p,
+  nodup_tab p -> existsb (touches k) ops = false -> alookup k (p_tab p) = Some ent ->
+  let st' := pins_exec (now, p) ops in
+  alookup k (p_tab (snd st')) = Some ent \/
+  (alookup k (p_tab (snd st')) = None /\ pin_expire ent <= fst st').
+Proof.
+  induction ops as [|o r IH]; intros now p HD Ht HS; cbn [pins_exec fold_left].
+  - left. exact HS.
+  - cbn [existsb] in Ht. apply orb_false_iff in Ht. destruct Ht as [Ho Hr].
+    pose proof (step_untouched k now p o HD Ho) as H1.
+    pose proof (step_nodup now p o HD) as HD1.
+    destruct (fst (pins_step (now, p) o)) as [now1 p1]. cbn [fst snd] in H1, HD1.
+    fold (pins_exec (now1, p1) r).
+    destruct H1 as [H1|[H1 [ent' [H2 H3]]]].
+    + apply IH; [exact HD1|exact Hr|]. rewrite H1. exact HS.
+    + right. rewrite HS in H2. injection H2 as <-. split.
+      * apply exec_none; [apply touches_adds; exact Hr|exact H1].
+      * pose proof (exec_time_le r now1 p1). lia.
+Qed.
+
+(* what a look-up answers, by cases on the table *)
+Lemma get_live now k p ent :
+  alookup k (p_tab p) = Some ent -> now < pin_expire ent ->
+  snd (pins_get now k p) = Some (pin_backend ent).
+Proof.
+  intros HS Hx. unfold pins_get. rewrite HS.
+  destruct (Z.ltb_spec now (pin_expire ent)); [reflexivity|lia].
+Qed.
+
+Lemma get_expired now k p ent :
+  alookup k (p_tab p) = Some ent -> pin_expire ent <= now -> snd (pins_get now k p) = None.
+Proof.
+  intros HS Hx. unfold pins_get. rewrite HS.
+  destruct (Z.ltb_spec now (pin_expire ent)); [lia|reflexivity].
+Qed.
+
+Lemma get_absent now k p : alookup k (p_tab p) = None -> snd (pins_get now k p) = None.
+Proof. intros HN. unfold pins_get. rewrite HN. reflexivity. Qed.
+
+Lemma add_lookup now k b e p : nodup_tab p -> 0 <= pins_lifetime p e ->
+  alookup k (p_tab (pins_add now k b e p)) =
+  Some {| pin_backend := b; pin_expire := now + pins_lifetime p e |}.
+Proof.
+  unfold nodup_tab. intros HD HL. unfold pins_add.
+  destruct (Z.ltb (p_next_clean p) now); cbn [p_tab].
+  - rewrite alookup_clean by (apply aset_keys_nodup; exact HD).
+    rewrite alookup_aset_same. cbn [pin_expire].
+    destruct (Z.ltb_spec (now + pins_lifetime p e) now); [lia|reflexivity].
+  - apply alookup_aset_same.
+Qed.
+
+(* the clock of the model after a history of the domain *)
+Theorem C15_clock ts ops : pins_domain ts ops = true -> fst (after ts ops) = elapsed ops.
+Proof.
+  intros HD. apply domain_split in HD. destruct HD as [_ Hok].
+  rewrite after_exec, exec_time by exact Hok. lia.
+Qed.
+
+(* After "pre; add k b e; mid" with mid neither re-adding nor terminating k: the clock shows
+   t0 + elapsed mid, and k's entry is exactly the one the add made (expiring at
+   t0 + max(timeout, e) seconds) unless that instant has been reached and it was dropped. *)
+Lemma pinned_state ts pre k b e mid :
+  pins_domain ts (pre ++ PAdd k b e :: mid) = true ->
+  existsb (touches k) mid = false ->
+  let st := after ts (pre ++ PAdd k b e :: mid) in
+  let t0 := fst (after ts pre) in
+  let ent := {| pin_backend := b; pin_expire := t0 + c15_ns (Z.max ts e) |} in
+  fst st = t0 + elapsed mid /\
+  (alookup k (p_tab (snd st)) = Some ent \/
+   (alookup k (p_tab (snd st)) = None /\ pin_expire ent <= fst st)).
+Proof.
+  intros HD Hun. apply domain_split in HD. destruct HD as [Hts Hok].
+  apply ok_app in Hok. destruct Hok as [Hpre Hrest].
+  cbn [forallb] in Hrest. apply andb_true_iff in Hrest. destruct Hrest as [Hadd Hmid].
+  assert (Dpre : pins_domain ts pre = true) by (apply domain_split; split; assumption).
+  pose proof (pinvT_after ts pre Dpre) as [HT HI].
+  cbv zeta. rewrite (after_exec ts (pre ++ _)), exec_app, <- after_exec.
+  destruct (after ts pre) as [now p]. cbn [fst snd] in *.
+  cbn [pins_exec fold_left pins_step fst]. fold (pins_exec (now, pins_add now k b e p) mid).
+  cbn [pin_op_ok] in Hadd.
+  assert (HL : pins_lifetime p e = c15_ns (Z.max ts e))
+    by (apply lifetime_domain; [exact Hts|lia|exact HT]).
+  assert (HL0 : 0 <= pins_lifetime p e).
+  { rewrite HL. pose proof (ns_max_ge ts e). pose proof (ns_small ts Hts). lia. }
+  destruct HI as (_ & _ & HND & _).
+  pose proof (add_lookup now k b e p HND HL0) as HS. rewrite HL in HS.
+  pose proof (step_nodup now p (PAdd k b e) HND) as HND1. cbn [pins_step fst snd] in HND1.
+  split.
+  - apply exec_time. exact Hmid.
+  - apply (exec_untouched k _ mid now _ HND1 Hun HS).
+Qed.
+
+(* ------------------------------------------------------------------ C15_honoured / never_after *)
+(* A pin made at time t0 with lifetime L = max(timeout, Expires) seconds is honoured by every
+   look-up made while less than L has elapsed, whatever else happened in between (other keys
+   added, looked up, terminated, sweeps run), provided k itself was not re-added or terminated. *)
+Theorem C15_honoured ts pre k b e mid :
+  pins_domain ts (pre ++ PAdd k b e :: mid) = true ->
+  existsb (touches k) mid = false ->
+  elapsed mid < c15_ns (Z.max ts e) ->
+  let st := after ts (pre ++ PAdd k b e :: mid) in
+  snd (pins_get (fst st) k (snd st)) = Some b.
+Proof.
+  intros HD Hun Hlt. destruct (pinned_state ts pre k b e mid HD Hun) as [Ht HS].
+  cbv zeta in *. destruct HS as [HS|[_ HS]].
+  - apply (get_live _ _ _ _ HS). cbn [pin_expire]. lia.
+  - cbn [pin_expire] in HS. lia.
+Qed.
+
+(* ... and by no look-up made once L has elapsed. *)
+Theorem C15_never_after ts pre k b e mid :
+  pins_domain ts (pre ++ PAdd k b e :: mid) = true ->
+  existsb (touches k) mid = false ->
+  c15_ns (Z.max ts e) <= elapsed mid ->
+  let st := after ts (pre ++ PAdd k b e :: mid) in
+  snd (pins_get (fst st) k (snd st)) = None.
+Proof.
+  intros HD Hun Hge. destruct (pinned_state ts pre k b e mid HD Hun) as [Ht HS].
+  cbv zeta in *. destruct HS as [HS|[HS _]].
+  - apply (get_expired _ _ _ _ HS). cbn [pin_expire]. lia.
+  - apply get_absent. exact HS.
+Qed.
+
+(* the lifetime is at least the configured timeout and at least the Expires value *)
+Lemma C15_lifetime_ge ts e : c15_ns ts <= c15_ns (Z.max ts e) /\ c15_ns e <= c15_ns (Z.max ts e).
+Proof. unfold c15_ns. lia. Qed.
+
+(* ------------------------------------------------------------------ C15_removed *)
+(* After a terminate, the key is not honoured until it is added again (any history, no domain
+   hypothesis needed). *)
+Theorem C15_removed ts pre k mid :
+  existsb (adds k) mid = false ->
+  let st := after ts (pre ++ PRemove k :: mid) in
+  snd (pins_get (fst st) k (snd st)) = None.
+Proof.
+  intros Hun. cbv zeta. rewrite after_exec, exec_app.
+  destruct (pins_exec (0, pins_new ts 0) pre) as [now p].
+  cbn [pins_exec fold_left pins_step fst]. fold (pins_exec (now, pins_remove k p) mid).
+  apply get_absent. apply exec_none; [exact Hun|].
+  cbn [pins_remove p_tab]. apply alookup_adel_same.
+Qed.
+
+(* ------------------------------------------------------------------ model vs specification state *)
+(* k's binding in the judge's specification state against k's entry in the model table: the
+   entry is the binding (same backend, expiring at created + lifetime), or the binding has run
+   out and the entry is gone (swept, or dropped by a look-up) *)
+Definition rel1 (now : Z) (sb : option c15_binding) (me : option pin) : Prop :=
+  match sb with
+  | None => me = None
+  | Some bd =>
+      me = Some {| pin_backend := cb_backend bd;
+                   pin_expire := cb_created bd + cb_lifetime bd |} \/
+      (me = None /\ cb_created bd + cb_lifetime bd <= now)
+  end.
+
+Definition rel (now : Z) (p : pins) (bs : c15_bindings) : Prop :=
+  forall k, rel1 now (alookup k bs) (alookup k (p_tab p)).
+
+Definition INV (ts now : Z) (p : pins) (bs : c15_bindings) : Prop :=
+  0 <= ts <= c15_max_seconds /\ pinvT ts now p /\ rel now p bs.
+
+Lemma rel1_mono now now' sb me : now <= now' -> rel1 now sb me -> rel1 now' sb me.
+Proof.
+  intros Hle. destruct sb as [bd|]; cbn [rel1]; [|tauto].
+  intros [H|[H1 H2]]; [left; exact H|right; split; [exact H1|lia]].
+Qed.
+
+Lemma rel1_clean now sb me : rel1 now sb me ->
+  rel1 now sb (match me with
+               | Some e => if Z.ltb (pin_expire e) now then None else Some e
+               | None => None end).
+Proof.
+  destruct sb as [bd|]; cbn [rel1].
+  - intros [H|[H1 H2]]; subst me.
+    + cbn [pin_expire]. destruct (Z.ltb_spec (cb_created bd + cb_lifetime bd) now) as [Hx|Hx].
+      * right. split; [reflexivity|lia].
+      * left. reflexivity.
+    + right. split; [reflexivity|exact H2].
+  - intros ->. reflexivity.
+Qed.
+
+Lemma INV_init ts : 0 <= ts <= c15_max_seconds -> INV ts 0 (pins_new ts 0) [].
+Proof.
+  intros Hts. split; [exact Hts|]. split; [apply pinvT_new; exact Hts|].
+  intros k. reflexivity.
+Qed.
+
+Lemma INV_step ts now p bs o : INV ts now p bs -> pin_op_ok o = true ->
+  let st1 := fst (pins_step (now, p) o) in
+  let sp1 := c15_next ts (now, bs) o in
+  fst sp1 = fst st1 /\ INV ts (fst st1) (snd st1) (snd sp1).
+Proof.
+  intros (Hts & HP & HR) Hok. cbv zeta.
+  pose proof (pinvT_step ts now p o Hts Hok HP) as HP1.
+  destruct HP as [HT HI]. pose proof HI as (_ & _ & HND & _).
+  destruct o as [k b e|k|k|dt]; cbn [pins_step c15_next pin_op_ok] in *.
+  - cbn [fst snd] in *. split; [reflexivity|]. split; [exact Hts|]. split; [exact HP1|].
+    assert (HL : pins_lifetime p e = c15_ns (Z.max ts e))
+      by (apply lifetime_domain; [exact Hts|lia|exact HT]).
+    intros k0. destruct (beq_spec k0 k) as [->|NE].
+    + rewrite alookup_aset_same. cbn [rel1 cb_backend cb_created cb_lifetime]. left.
+      rewrite add_lookup; [rewrite HL; reflexivity|exact HND|].
+      rewrite HL. pose proof (ns_max_ge ts e). pose proof (ns_small ts Hts). lia.
+    + rewrite alookup_aset_other by exact NE. unfold pins_add.
+      destruct (Z.ltb (p_next_clean p) now); cbn [p_tab].
+      * rewrite alookup_clean by (apply aset_keys_nodup; exact HND).
+        rewrite alookup_aset_other by exact NE. apply rel1_clean. apply HR.
+      * rewrite alookup_aset_other by exact NE. apply HR.
+  - assert (HR' : rel now (fst (pins_get now k p)) bs).
+    { unfold pins_get. destruct (alookup k (p_tab p)) as [e1|] eqn:E1; [|exact HR].
+      destruct (Z.ltb_spec now (pin_expire e1)) as [Hx|Hx]; [exact HR|].
+      cbn [fst]. intros k0. cbn [p_tab]. destruct (beq_spec k0 k) as [->|NE].
+      - rewrite alookup_adel_same. specialize (HR k). rewrite E1 in HR.
+        destruct (alookup k bs) as [bd|]; cbn [rel1] in *; [|discriminate].
+        destruct HR as [HR|[HR _]]; [|discriminate].
+        injection HR as ->. cbn [pin_expire] in Hx. right. split; [reflexivity|exact Hx].
+      - rewrite alookup_adel_other by exact NE. apply HR. }
+    destruct (pins_get now k p) as [p' r]. cbn [fst snd] in *.
+    split; [reflexivity|]. split; [exact Hts|]. split; [exact HP1|exact HR'].
+  - cbn [fst snd] in *. split; [reflexivity|]. split; [exact Hts|]. split; [exact HP1|].
+    intros k0. cbn [pins_remove p_tab]. destruct (beq_spec k0 k) as [->|NE].
+    + rewrite !alookup_adel_same. reflexivity.
+    + rewrite !alookup_adel_other by exact NE. apply HR.
+  - cbn [fst snd] in *. split; [lia|]. split; [exact Hts|]. split; [exact HP1|].
+    intros k0. apply (rel1_mono now); [lia|apply HR].
+Qed.
+
+Lemma INV_exec ts ops : forall now p bs, INV ts now p bs -> forallb pin_op_ok ops = true ->
+  let st := pins_exec (now, p) ops in
+  let sp := fold_left (c15_next ts) ops (now, bs) in
+  fst sp = fst st /\ INV ts (fst st) (snd st) (snd sp).
+Proof.
+  induction ops as [|o r IH]; intros now p bs HI Hok; cbn [pins_exec fold_left].
+  - split; [reflexivity|exact HI].
+  - cbn [forallb] in Hok. apply andb_true_iff in Hok. destruct Hok as [Ho Hr].
+    pose proof (INV_step ts now p bs o HI Ho) as [H1 H2].
+    destruct (fst (pins_step (now, p) o)) as [now1 p1].
+    destruct (c15_next ts (now, bs) o) as [t1 bs1]. cbn [fst snd] in H1, H2. subst t1.
+    apply (IH now1 p1 bs1 H2 Hr).
+Qed.
+
+(* what the model answers is what C15 prescribes *)
+Lemma get_expected now k p bs : rel now p bs -> snd (pins_get now k p) = c15_expected now k bs.
+Proof.
+  intros HR. specialize (HR k). unfold c15_expected.
+  destruct (alookup k bs) as [bd|]; cbn [rel1] in HR.
+  - destruct (Z.ltb_spec now (cb_created bd + cb_lifetime bd)) as [Hx|Hx];
+      destruct HR as [HR|[HR HR2]].
+    + rewrite (get_live _ _ _ _ HR) by (cbn [pin_expire]; lia). reflexivity.
+    + lia.
+    + apply (get_expired _ _ _ _ HR). cbn [pin_expire]. lia.
+    + apply get_absent. exact HR.
+  - apply get_absent. exact HR.
+Qed.
+
+(* sizes: the table never holds more pins than the judge counts *)
+Lemma size_le_filter f now p bs : nodup_tab p -> rel now p bs ->
+  (forall k bd, In (k, {| pin_backend := cb_backend bd;
+                          pin_expire := cb_created bd + cb_lifetime bd |}) (p_tab p) ->
+                f (k, bd) = true) ->
+  (List.length (p_tab p) <= List.length (filter f bs))%nat.
+Proof.
+  intros HND HR Hf.
+  rewrite <- (map_length fst (p_tab p)), <- (map_length fst (filter f bs)).
+  apply NoDup_incl_length; [exact HND|].
+  intros k Hk. apply in_map_iff in Hk. destruct Hk as [[k' ent] [E Hin]]. cbn [fst] in E. subst k'.
+  pose proof (in_alookup _ _ _ HND Hin) as HS.
+  specialize (HR k). rewrite HS in HR.
+  destruct (alookup k bs) as [bd|] eqn:Eb; cbn [rel1] in HR; [|discriminate].
+  destruct HR as [HR|[HR _]]; [|discriminate]. injection HR as ->.
+  change k with (fst (k, bd)). apply in_map. apply filter_In. split.
+  - apply alookup_in. exact Eb.
+  - apply Hf. exact Hin.
+Qed.
+
+Lemma size_le now p bs : nodup_tab p -> rel now p bs ->
+  (List.length (p_tab p) <= List.length bs)%nat.
+Proof.
+  intros HND HR. rewrite <- (filter_all bs) at 1.
+  apply (size_le_filter (fun _ => true) now); [exact HND|exact HR|reflexivity].
+Qed.
+
+Lemma size_le_recent ts t p bs : nodup_tab p -> rel t p bs -> p_timeout p = c15_ns ts ->
+  swept (t, p) -> (List.length (p_tab p) <= List.length (filter (c15_recent ts t) bs))%nat.
+Proof.
+  intros HND HR HT HS. apply (size_le_filter _ t); [exact HND|exact HR|].
+  intros k bd Hin. unfold swept in HS. cbn [fst snd] in HS.
+  pose proof (proj1 (Forall_forall _ _) HS _ Hin) as H. cbn [snd pin_expire] in H.
+  unfold c15_recent. cbn [snd]. rewrite HT in H. lia.
+Qed.
+
+Lemma opt_eqb_refl x : c15_opt_eqb x x = true.
+Proof. destruct x as [b|]; cbn; [apply beq_refl|reflexivity]. Qed.
+Lemma out_eqb_refl r : c15_out_eqb r r = true.
+Proof. destruct r as [|x]; cbn; [reflexivity|apply opt_eqb_refl]. Qed.
+
+(* one step of the model is accepted by one step of the judge *)
+Lemma step_judged ts now p bs o : INV ts now p bs -> pin_op_ok o = true ->
+  c15_out_ok ts (now, bs) o
+    (snd (pins_step (now, p) o), List.length (p_tab (snd (fst (pins_step (now, p) o))))) = true.
+Proof.
+  intros HI Hok. pose proof (INV_step ts now p bs o HI Hok) as [H1 (Hts & [HT1 HP1] & HR1)].
+  destruct HI as (_ & [HT HP] & HR).
+  assert (HND1 : nodup_tab (snd (fst (pins_step (now, p) o)))) by apply HP1.
+  pose proof (size_le _ _ _ HND1 HR1) as Hsz.
+  unfold c15_out_ok. apply andb_true_iff. split; [apply Nat.leb_le; exact Hsz|].
+  destruct o as [k b e|k|k|dt]; cbn [pins_step snd fst] in *; try reflexivity.
+  - cbn [c15_out_eqb andb]. apply Nat.leb_le.
+    apply size_le_recent; [exact HND1|exact HR1|exact HT1|].
+    apply swept_add; [exact HP|].
+    cbn [pin_op_ok] in Hok.
+    rewrite (lifetime_domain ts p e Hts) by (try exact HT; lia).
+    rewrite HT. apply ns_max_ge.
+  - rewrite <- (get_expected now k p bs HR).
+    destruct (pins_get now k p) as [p' r]. cbn [snd]. apply out_eqb_refl.
+Qed.
+
+Lemma judged_gen ts ops : forall now p bs, INV ts now p bs -> forallb pin_op_ok ops = true ->
+  c15_check ts (now, bs) ops (snd (pins_run (now, p) ops)) = true.
+Proof.
+  induction ops as [|o r IH]; intros now p bs HI Hok; cbn [pins_run].
+  - reflexivity.
+  - cbn [forallb] in Hok. apply andb_true_iff in Hok. destruct Hok as [Ho Hr].
+    pose proof (step_judged ts now p bs o HI Ho) as Hj.
+    pose proof (INV_step ts now p bs o HI Ho) as [H1 H2].
+    destruct (pins_step (now, p) o) as [[now1 p1] x] eqn:Es.
+    specialize (IH now1 p1).
+    destruct (pins_run (now1, p1) r) as [st2 xs] eqn:Er.
+    cbn [fst snd] in *. cbn [c15_check]. apply andb_true_iff. split; [exact Hj|].
+    destruct (c15_next ts (now, bs) o) as [t1 bs1]. cbn [fst snd] in H1, H2. subst t1.
+    apply IH; assumption.
+Qed.
+
+(* ------------------------------------------------------------------ C15_judged *)
+(* Every observation the model produces on a history of the domain is accepted by the judge. *)
+Theorem C15_judged : forall timeout_s ops, pins_domain timeout_s ops = true ->
+  judge_C15 timeout_s ops (snd (pins_run (0, pins_new timeout_s 0) ops)) = true.
+Proof.
+  intros ts ops HD. apply domain_split in HD. destruct HD as [Hts Hok].
+  unfold judge_C15. apply judged_gen; [apply INV_init; exact Hts|exact Hok].
+Qed.
+
+(* ------------------------------------------------------------------ C15_bounded *)
+Lemma INV_after ts ops : pins_domain ts ops = true ->
+  fst (c15_after ts ops) = fst (after ts ops) /\
+  INV ts (fst (after ts ops)) (snd (after ts ops)) (snd (c15_after ts ops)).
+Proof.
+  intros HD. apply domain_split in HD. destruct HD as [Hts Hok].
+  rewrite after_exec. unfold c15_after.
+  apply (INV_exec ts ops 0 (pins_new ts 0) [] (INV_init ts Hts) Hok).
+Qed.
+
+(* The table never holds more pins than there are keys bound and not terminated ... *)
+Theorem C15_size_le ts ops : pins_domain ts ops = true ->
+  (List.length (p_tab (snd (after ts ops))) <= List.length (snd (c15_after ts ops)))%nat.
+Proof.
+  intros HD. destruct (INV_after ts ops HD) as [_ (_ & [_ HP] & HR)].
+  apply (size_le (fst (after ts ops))); [apply HP|exact HR].
+Qed.
+
+(* ... and right after an add (at time t) no more than there are keys whose current binding
+   had not been expired for more than one dialog timeout: created + lifetime + timeout >= t.
+   Bindings whose lifetime ended earlier have been purged, whatever their Expires was. *)
+Theorem C15_bounded ts pre k b e :
+  let ops := pre ++ [PAdd k b e] in
+  pins_domain ts ops = true ->
+  let t := fst (after ts ops) in
+  fst (c15_after ts ops) = t /\
+  (List.length (p_tab (snd (after ts ops))) <=
+   List.length (filter (c15_recent ts t) (snd (c15_after ts ops))))%nat.
+Proof.
+  cbv zeta. intros HD. destruct (INV_after ts _ HD) as [Ht (_ & [HT HP] & HR)].
+  split; [exact Ht|].
+  pose proof (C15_swept ts pre k b e HD) as HS.
+  destruct (after ts (pre ++ [PAdd k b e])) as [t p]. cbn [fst snd] in *.
+  apply size_le_recent; [apply HP|exact HR|exact HT|exact HS].
+Qed.
+
+(* ------------------------------------------------------------------ C15_legacy_refuted *)
+(* The pre-fix AddBackend (pins_add_legacy: next sweep = expiry of the entry just added).
+   One add carrying a huge Expires pushes the next sweep decades away; pins made afterwards
+   are never purged. *)
+Definition legacy_step (st : Z * pins) (o : pin_op) : (Z * pins) * pin_out :=
+  match o with
+  | PAdd k b e => ((fst st, pins_add_legacy (fst st) k b e (snd st)), PNone)
+  | _ => pins_step st o
+  end.
+
+Fixpoint legacy_run (st : Z * pins) (ops : list pin_op) : (Z * pins) * list (pin_out * nat) :=
+  match ops with
+  | [] => (st, [])
+  | o :: r => let '(st1, x) := legacy_step st o in
+              let '(st2, xs) := legacy_run st1 r in
+              (st2, (x, List.length (p_tab (snd st1))) :: xs)
+  end.
+
+Definition legacy_after (ts : Z) (ops : list pin_op) : Z * pins :=
+  fst (legacy_run (0, pins_new ts 0) ops).
+
+Definition swept_b (st : Z * pins) : bool :=
+  forallb (fun kv => Z.leb (fst st) (pin_expire (snd kv) + p_timeout (snd st))) (p_tab (snd st)).
+
+Lemma swept_b_spec st : swept st <-> swept_b st = true.
+Proof.
+  unfold swept, swept_b. rewrite forallb_forall, Forall_forall.
+  split; intros H x Hx; specialize (H x Hx); lia.
+Qed.
+
+(* timeout 10 s.  t = 11 s: dialog "a" pinned with Expires 2^31-1, dialog "b" pinned (lifetime
+   10 s, over at t = 21 s).  100 s of silence.  t = 111 s: dialog "c" pinned. *)
+Definition legacy_pre : list pin_op :=
+  [ PAdvance (c15_ns 11); PAdd (s2b "a") (s2b "B1") 2147483647; PAdd (s2b "b") (s2b "B2") 0;
+    PAdvance (c15_ns 100) ].
+
+(* With the legacy code "b", expired for 90 s = nine timeouts, is still in the table right
+   after the add: the swept property (C15_swept) fails, and the judge rejects the run. *)
+Theorem C15_legacy_refuted :
+  exists ts pre k b e,
+    pins_domain ts (pre ++ [PAdd k b e]) = true /\
+    ~ swept (legacy_after ts (pre ++ [PAdd k b e])) /\
+    judge_C15 ts (pre ++ [PAdd k b e])
+              (snd (legacy_run (0, pins_new ts 0) (pre ++ [PAdd k b e]))) = false.
+Proof.
+  exists 10, legacy_pre, (s2b "c"), (s2b "B3"), 0.
+  split; [vm_compute; reflexivity|]. split.
+  - intros H. apply swept_b_spec in H. vm_compute in H. discriminate.
+  - vm_compute. reflexivity.
+Qed.
+
+(* the same history under the fixed code: swept (instance of C15_swept), "b" is gone *)
+Example C15_fixed_same_history :
+  swept (after 10 (legacy_pre ++ [PAdd (s2b "c") (s2b "B3") 0])) /\
+  map fst (p_tab (snd (after 10 (legacy_pre ++ [PAdd (s2b "c") (s2b "B3") 0]))))
+    = [s2b "a"; s2b "c"] /\
+  map fst (p_tab (snd (legacy_after 10 (legacy_pre ++ [PAdd (s2b "c") (s2b "B3") 0]))))
+    = [s2b "a"; s2b "b"; s2b "c"].
+Proof.
+  split; [apply C15_swept; vm_compute; reflexivity|].
+  split; vm_compute; reflexivity.
+Qed.
+
+(* ------------------------------------------------------------------ examples (non-vacuity) *)
+(* timeout 30 s; dialog "d1" pinned to B1 by a response with Expires 3600; meanwhile other
+   dialogs come and go and a sweep runs (the add of "y" at t = 100 s > next_clean = 30 s). *)
+Definition ex_pre : list pin_op := [ PAdd (s2b "x") (s2b "B0") 0; PAdvance (c15_ns 5) ].
+Definition ex_mid (last : Z) : list pin_op :=
+  [ PAdvance (c15_ns 95); PAdd (s2b "y") (s2b "B2") 0; PGet (s2b "d1"); PRemove (s2b "x");
+    PAdvance last ].
+
+Example C15_honoured_example :
+  let ops := ex_pre ++ PAdd (s2b "d1") (s2b "B1") 3600 :: ex_mid (c15_ns 3505 - 1) in
+  pins_domain 30 ops = true /\
+  existsb (touches (s2b "d1")) (ex_mid (c15_ns 3505 - 1)) = false /\
+  elapsed (ex_mid (c15_ns 3505 - 1)) = c15_ns 3600 - 1 /\
+  snd (pins_get (fst (after 30 ops)) (s2b "d1") (snd (after 30 ops))) = Some (s2b "B1").
+Proof.
+  cbv zeta. split; [vm_compute; reflexivity|]. split; [vm_compute; reflexivity|].
+  split; [vm_compute; reflexivity|].
+  apply C15_honoured; vm_compute; reflexivity.
+Qed.
+
+Example C15_never_after_example :
+  let ops := ex_pre ++ PAdd (s2b "d1") (s2b "B1") 3600 :: ex_mid (c15_ns 3505) in
+  pins_domain 30 ops = true /\
+  existsb (touches (s2b "d1")) (ex_mid (c15_ns 3505)) = false /\
+  elapsed (ex_mid (c15_ns 3505)) = c15_ns 3600 /\
+  snd (pins_get (fst (after 30 ops)) (s2b "d1") (snd (after 30 ops))) = None.
+Proof.
+  cbv zeta. split; [vm_compute; reflexivity|]. split; [vm_compute; reflexivity|].
+  split; [vm_compute; reflexivity|].
+  apply C15_never_after; [vm_compute; reflexivity|vm_compute; reflexivity|].
+  vm_compute. discriminate.
+Qed.
+
+(* with Expires below the timeout the timeout governs: honoured at 30 s - 1 ns, not at 30 s *)
+Example C15_timeout_governs :
+  snd (pins_run (0, pins_new 30 0)
+         [PAdd (s2b "d") (s2b "B") 5; PAdvance (c15_ns 30 - 1); PGet (s2b "d");
+          PAdvance 1; PGet (s2b "d"); PGet (s2b "d")])
+  = [(PNone, 1%nat); (PNone, 1%nat); (PGot (Some (s2b "B")), 1%nat);
+     (PNone, 1%nat); (PGot None, 0%nat); (PGot None, 0%nat)].
+Proof. vm_compute. reflexivity. Qed.
+
+Example C15_removed_example :
+  let ops := [PAdd (s2b "d") (s2b "B") 100] ++ PRemove (s2b "d")
+             :: [PAdvance 5; PAdd (s2b "other") (s2b "B") 0] in
+  existsb (adds (s2b "d")) [PAdvance 5; PAdd (s2b "other") (s2b "B") 0] = false /\
+  snd (pins_get (fst (after 30 ops)) (s2b "d") (snd (after 30 ops))) = None.
+Proof. cbv zeta. split; [vm_compute; reflexivity|]. apply C15_removed. vm_compute. reflexivity. Qed.
+
+(* C15_swept / C15_bounded: 3 short-lived pins, a long pause, one more add: only the long-lived
+   pin and the new one remain, though three further keys are still "bound" in the spec state *)
+Definition ex_burst : list pin_op :=
+  [ PAdd (s2b "long") (s2b "B") 2147483647;
+    PAdd (s2b "s1") (s2b "B") 0; PAdd (s2b "s2") (s2b "B") 40; PAdd (s2b "s3") (s2b "B") 0;
+    PAdvance (c15_ns 71) ].
+
+Example C15_swept_example :
+  let ops := ex_burst ++ [PAdd (s2b "new") (s2b "B") 0] in
+  pins_domain 30 ops = true /\
+  List.length (snd (c15_after 30 ops)) = 5%nat /\
+  List.length (filter (c15_recent 30 (fst (after 30 ops))) (snd (c15_after 30 ops))) = 2%nat /\
+  map fst (p_tab (snd (after 30 ops))) = [s2b "long"; s2b "new"].
+Proof. cbv zeta. repeat split; vm_compute; reflexivity. Qed.
+
+(* C15_judged, and the judge is not trivially true: it rejects a pin honoured at its expiry
+   instant, a pin not honoured one nanosecond earlier, an answer after a terminate, a wrong
+   backend, a table that kept a long-expired pin across an add, and a truncated observation;
+   for an expired pin that was looked up it accepts both "forgotten" and "still counted". *)
+Definition ex_ops : list pin_op :=
+  [ PAdd (s2b "d") (s2b "B") 0; PAdvance (c15_ns 10 - 1); PGet (s2b "d"); PAdvance 1;
+    PGet (s2b "d"); PAdd (s2b "d") (s2b "C") 20; PRemove (s2b "d"); PGet (s2b "d");
+    PAdd (s2b "e") (s2b "B") 0; PAdvance (c15_ns 21); PAdd (s2b "f") (s2b "B") 0 ].
+Definition ex_obs (r3 r5 r8 : option bytes) (n5 n11 : nat) : list (pin_out * nat) :=
+  [ (PNone, 1%nat); (PNone, 1%nat); (PGot r3, 1%nat); (PNone, 1%nat); (PGot r5, n5);
+    (PNone, 1%nat); (PNone, 0%nat); (PGot r8, 0%nat); (PNone, 1%nat); (PNone, 1%nat);
+    (PNone, n11) ].
+
+Example C15_judged_example :
+  pins_domain 10 ex_ops = true /\
+  snd (pins_run (0, pins_new 10 0) ex_ops) = ex_obs (Some (s2b "B")) None None 0 1 /\
+  judge_C15 10 ex_ops (ex_obs (Some (s2b "B")) None None 0 1) = true /\
+  judge_C15 10 ex_ops (ex_obs (Some (s2b "B")) None None 1 1) = true /\   (* no lazy delete *)
+  judge_C15 10 ex_ops (ex_obs (Some (s2b "B")) (Some (s2b "B")) None 1 1) = false /\
+  judge_C15 10 ex_ops (ex_obs None None None 0 1) = false /\
+  judge_C15 10 ex_ops (ex_obs (Some (s2b "C")) None None 0 1) = false /\
+  judge_C15 10 ex_ops (ex_obs (Some (s2b "B")) None (Some (s2b "C")) 0 1) = false /\
+  judge_C15 10 ex_ops (ex_obs (Some (s2b "B")) None None 0 2) = false /\
+  judge_C15 10 ex_ops (removelast (ex_obs (Some (s2b "B")) None None 0 1)) = false.
+Proof. repeat split; vm_compute; reflexivity. Qed.
+
+Print Assumptions C15_judged.
+Print Assumptions C15_honoured.
+Print Assumptions C15_never_after.
+Print Assumptions C15_removed.
+Print Assumptions C15_swept.
+Print Assumptions C15_size_le.
+Print Assumptions C15_bounded.
+Print Assumptions C15_clock.
+Print Assumptions C15_legacy_refuted.
+Print Assumptions C15_judged_example.
